@@ -75,7 +75,7 @@ func main() {
 }
 
 func c15(c *Ctx) {
-	c.Rule = "upload sessions: 1..4 files (sizes 1 byte .. 3 chunk sizes, chunk sizes 1/7/64/4096, names and alarm ids over arbitrary bytes incl. 30 31 63 64), 0x1210 / optional 0x1211 / chunks / 0x1212 (+ resend and a second 0x1212 when tiles were withheld), all chunk orders for <= 4 chunks (exhaustive), duplicates before and after completion, five dialects (HLJ length-prefixed chunk header), both header versions, non-uniform splits (random cut points) with a second 0x1210 in mid-session, file names of every length up to the header limits; a zero-length chunk before a 0x1212 (known finding), a 0x1212 for a never announced file after a real one (known finding), names with NUL bytes in the middle (normal uploads, direct oracle), NUL-ended file names (direct oracle: known finding), 126..255 single-byte gaps (0x9212 bodies over 1023 bytes: correspondence of the bytes only); each stream fed unit by unit, coalesced into one read, with every 1-cut (short streams), byte by byte (short streams) and random k-cuts; plus malformed streams (garbage, truncated frames, unknown ids, chunks of unknown files, bad 0x1210 bodies) for the correspondence. A case is non-trivial when the stream holds at least one chunk and one control frame; distinct = distinct request lines"
+	c.Rule = "upload sessions: 1..4 files (sizes 1 byte .. 3 chunk sizes, chunk sizes 1/7/64/4096, names and alarm ids over arbitrary bytes incl. 30 31 63 64), 0x1210 / optional 0x1211 / chunks / 0x1212 (+ resend and a second 0x1212 when tiles were withheld), all chunk orders for <= 4 chunks (exhaustive), duplicates before and after completion, five dialects (HLJ length-prefixed chunk header), both header versions, non-uniform splits (random cut points) with a second 0x1210 in mid-session, file names of every length up to the header limits; a zero-length chunk before a 0x1212 (known finding), a 0x1212 for a never announced file after a real one (known finding), names with NUL bytes in the middle (normal uploads, direct oracle), bulk uploads (256 KiB and 1 MiB files in 64 KiB chunks written back to back, delivered as the server's 100 KiB reads, and unit by unit), NUL-ended file names (direct oracle: known finding), 126..255 single-byte gaps (0x9212 bodies over 1023 bytes: correspondence of the bytes only); each stream fed unit by unit, coalesced into one read, with every 1-cut (short streams), byte by byte (short streams) and random k-cuts; plus malformed streams (garbage, truncated frames, unknown ids, chunks of unknown files, bad 0x1210 bodies) for the correspondence. A case is non-trivial when the stream holds at least one chunk and one control frame; distinct = distinct request lines"
 	rng := c.Rng
 
 	randName := func(d int, i int) []byte {
@@ -515,6 +515,52 @@ func c15(c *Ctx) {
 			s.units = append(s.units, ctrl(s, 0x1210, 0), ctrl(s, 0x1211, 0), chunk(s, 0, 1), ctrl(s, 0x1212, 0),
 				chunk(s, 1, 0), chunk(s, 0, 0), chunk(s, 0, 2), chunk(s, 0, 1), ctrl(s, 0x1212, 0), ctrl(s, 0x1212, 1))
 			play(s, "interior-nul", false)
+		}
+	}
+
+	// (1d) bulk uploads: files of 256 KiB and 1 MiB in chunks of 64 KiB (the wire's usual maximum), all chunks written back to
+	// back.  connection.run reads at most 100 KiB at a time (curData), so a long write reaches the server as reads of
+	// 102400 bytes: each request line carries exactly those reads (the model's run takes the reads as given), and the
+	// buffered backlog legitimately reaches a partial chunk plus a whole read (~164 KiB).  Also one read per unit.
+	for bi, size := range []int{256 << 10, 1 << 20} {
+		s := newSession(1, []int{size}, []int{64 << 10})
+		s.files[0].name = []byte(fmt.Sprintf("bulk%d.bin", bi))
+		s.units = append(s.units, ctrl(s, 0x1210, 0), ctrl(s, 0x1211, 0))
+		order := rng.Perm(len(s.files[0].tiles))
+		if bi == 0 {
+			order = nil
+			for t := range s.files[0].tiles {
+				order = append(order, t)
+			}
+		}
+		for _, t := range order {
+			s.units = append(s.units, chunk(s, 0, t))
+		}
+		s.units = append(s.units, ctrl(s, 0x1212, 0))
+		stream := s.stream()
+		var reads [][]byte
+		for o := 0; o < len(stream); o += 102400 {
+			e := o + 102400
+			if e > len(stream) {
+				e = len(stream)
+			}
+			reads = append(reads, stream[o:e])
+		}
+		var ref string
+		for hi, segs := range [][][]byte{reads, s.unitSegs()} {
+			how := []string{"back-to-back", "units"}[hi]
+			req := AttRequest(s.d, segs)
+			res := AttRun(s.d, segs, nil)
+			can := AttCanon(res)
+			c.Case(req, can, true)
+			c.Count("bulk/" + how)
+			check(s, req, res, "bulk/"+how)
+			if ref == "" {
+				ref = dropHist(can)
+			} else if dropHist(can) != ref {
+				c.Violate(Violation{Signature: "C15/segmentation", What: "a bulk upload gives different events back to back and unit by unit",
+					Input: req, Observed: Trunc(dropHist(can), 500), Required: Trunc(ref, 500)})
+			}
 		}
 	}
 
